@@ -17,6 +17,24 @@ type v2obj struct {
 }
 
 func v2Decode(dec byte, s string) (o v2obj, err error) {
+	if useNilReceiver {
+		switch dec {
+		case 'B':
+			o.b, err = (*m2.Base)(nil).Decode(s)
+		case 'T':
+			o.t, err = (*m2.Temporal)(nil).Decode(s)
+			if err == nil {
+				o.b = o.t.BaseMetrics()
+			}
+		case 'E':
+			o.e, err = (*m2.Environmental)(nil).Decode(s)
+			if err == nil {
+				o.t = o.e.TemporalMetrics()
+				o.b = o.e.BaseMetrics()
+			}
+		}
+		return
+	}
 	switch dec {
 	case 'B':
 		o.b, err = m2.NewBase().Decode(s)
@@ -36,8 +54,10 @@ func v2Decode(dec byte, s string) (o v2obj, err error) {
 }
 
 func v2EventBody(v *v2Vec, temporal, env bool, lvl string, f float64, sev string) string {
-	if flagPid == "C06" {
-		return gridBody("v2", lvl, f, sev, lvl == "E" && env && v2NegEq(v))
+	if flagPid == "C06" && !(lvl == "E" && env && v2NegEq(v)) {
+		// vectors whose adjusted base equation is negative keep their full event: whether the
+		// environmental equation itself is negative is for TLC to say (Trace_V2)
+		return gridBody("v2", lvl, f, sev, false)
 	}
 	t, ex, s := obsScore(f)
 	ts, es := "[]", "[]"
@@ -212,6 +232,7 @@ func cmdV2Env(args []string) {
 		}
 		f0 := cA.Score()
 		rec.Add(v2EventBody(&v, false, true, "E", f0, cA.Severity().String()), "assign (temporal absent, CDP:ND, TD:ND)")
+		negKey := v2NegEq(&v)
 		ab, abex, _ := obsScore(f0)
 		if !abex || ab < -100 || ab > 100 {
 			return // reported by the raw event above
@@ -238,6 +259,12 @@ func cmdV2Env(args []string) {
 					f := em.Score()
 					if flagPid == "C06" {
 						// grid / severity observation (judged against the sign of the specification's equation)
+						rec.Add(v2EventBody(&v, ti >= 0, true, "E", f, em.Severity().String()), "assign")
+						continue
+					}
+					if negKey {
+						// the adjusted base score has latitude here (negative equation): tuples
+						// relative to the observed value would be unsound, record the full event
 						rec.Add(v2EventBody(&v, ti >= 0, true, "E", f, em.Severity().String()), "assign")
 						continue
 					}
